@@ -891,6 +891,15 @@ impl Env {
                         out.push(mk(row, &extra));
                     }
                 }
+                // every enumerated value of every optional property appears at least once
+                for (k, ws) in &optional {
+                    for w in ws.iter().take(8) {
+                        let v = mk(&base_rows[0], &[(k.clone(), w.clone())]);
+                        if !out.contains(&v) {
+                            out.push(v);
+                        }
+                    }
+                }
                 // one entry for each open index signature
                 for (keys, vals) in &open_index {
                     for (i, v) in vals.iter().enumerate().take(3) {
